@@ -7,9 +7,20 @@ def errStr : Err → String
   | .tunnel => "tunnel" | .noHost => "noHost" | .build _ => "build"
 
 /-- `fwd first <disableCSV|-> <segs…>` / `fwd later <disableCSV|-> <segs…>`:
-    the bytes queued to upstream for one request (`ok <hex>`), or `none <why>` -/
+    the bytes queued to upstream for one request (`ok <hex>`), or `none`;
+    `fwd why first|later …` prints the reason instead (debugging aid) -/
 def drv (args : List String) : String :=
   match args with
+  | "why" :: which :: disable :: segs =>
+    let dis : Option (List Bytes) :=
+      if disable == "-" then some [] else (disable.splitOn ",").mapM unhex
+    match dis, Px.Parser.unhexAll segs with
+    | some dis, some segs =>
+      let cfg : Cfg := { disable := dis }
+      match (if which == "first" then forwardFirst cfg segs else forwardLater cfg segs) with
+      | .ok _ => "ok"
+      | .error e => "none " ++ errStr e
+    | _, _ => "bad-op"
   | which :: disable :: segs =>
     let dis : Option (List Bytes) :=
       if disable == "-" then some [] else (disable.splitOn ",").mapM unhex
@@ -20,7 +31,7 @@ def drv (args : List String) : String :=
         else if which == "later" then some (forwardLater cfg segs) else none
       match r with
       | some (.ok x) => "ok " ++ hex x
-      | some (.error e) => "none " ++ errStr e
+      | some (.error _) => "none"
       | none => "bad-op"
     | _, _ => "bad-op"
   | _ => "bad-op"
